@@ -274,7 +274,10 @@ Http::One::RequestParser::parseRequestFirstLine()
     // Now, the request line has to end at the first LF.
     static const CharacterSet lineChars = CharacterSet::LF.complement("notLF");
     Tokenizer lineTok(buf_);
-    if (!lineTok.prefix(line, lineChars) || !lineTok.skip('\n')) {
+    const auto foundLine = lineTok.prefix(line, lineChars) && lineTok.skip('\n');
+    // A request-line that does not end within the limit is too long regardless of
+    // whether its LF happened to arrive in the same read as the octets beyond the limit.
+    if (!foundLine || line.length() >= Config.maxRequestHeaderSize) {
         if (buf_.length() >= Config.maxRequestHeaderSize) {
             /* who should we blame for our failure to parse this line? */
 
